@@ -11,6 +11,7 @@ VERIF="$(pwd)"
 export VERIF_DIR="$VERIF"
 SEED="${VERIF_SEED:-1}"
 mkdir -p evidence build/ev
+rm -f build/ev/valgrind.json
 
 case "$PROP" in
   C06) VARIANTS="plain tsan" ;;
@@ -68,7 +69,7 @@ fi
 
 # valgrind over a few replayed seeds of the plain binary (uninitialised values; C10 thorough only)
 if [ "$PROP" = "C10" ] && [ "$TIER" = "thorough" ] && [ $rc -eq 0 ]; then
-  ./build.sh plain > build/ev/build_plain.log 2>&1 || { echo "INFRA: plain build failed"; exit 2; }
+  ./build.sh vg > build/ev/build_vg.log 2>&1 || { echo "INFRA: vg build failed"; exit 2; }
   ./valgrind_replays.sh "$SEED" 40 || rc=$?
 fi
 
